@@ -20,19 +20,22 @@ pub struct RecWriter {
     pub ops: Vec<Op>,
     /// snapshot lengths: data.len() after each op
     pub log_ops: bool,
+    /// 0 = accept everything offered; n > 0 = accept at most n bytes per write call (short writes)
+    pub max_write: usize,
 }
 
 impl RecWriter {
     pub fn new() -> Self {
-        RecWriter { data: vec![], pos: 0, ops: vec![], log_ops: true }
+        RecWriter { data: vec![], pos: 0, ops: vec![], log_ops: true, max_write: 0 }
     }
     pub fn with_prefix(prefix: &[u8]) -> Self {
-        RecWriter { data: prefix.to_vec(), pos: prefix.len() as u64, ops: vec![], log_ops: true }
+        RecWriter { data: prefix.to_vec(), pos: prefix.len() as u64, ops: vec![], log_ops: true, max_write: 0 }
     }
 }
 
 impl Write for RecWriter {
     fn write(&mut self, buf: &[u8]) -> io::Result<usize> {
+        let buf = if self.max_write > 0 && buf.len() > self.max_write { &buf[..self.max_write] } else { buf };
         let p = self.pos as usize;
         if self.data.len() < p {
             self.data.resize(p, 0);
